@@ -396,19 +396,35 @@ func (c *Ctx) HasCall(fnSpec, callee string, argPats []string, onSuccess bool, d
 // mustPassAny: every entry→success path passes through the block of at least one of the calls.
 func (c *Ctx) MustPassAny(f *ir.Func, calls []ssa.CallInstruction) bool {
 	blocks := map[*ssa.BasicBlock]bool{}
+	inHelper := map[*ssa.Function]map[*ssa.BasicBlock]bool{}
 	for _, call := range calls {
 		b := call.Block()
 		if b.Parent() != f.Fn {
-			// a call inside a registered helper happens where the helper is called, provided the helper cannot
-			// succeed without it
-			h := ir.HelperOf(f, b.Parent())
-			if h == nil || !h.HF.MustPassOnSuccess(b) {
-				continue
+			if inHelper[b.Parent()] == nil {
+				inHelper[b.Parent()] = map[*ssa.BasicBlock]bool{}
 			}
-			b = f.OuterBlock(b)
+			inHelper[b.Parent()][b] = true
+			continue
 		}
 		blocks[b] = true
 	}
+	// calls inside a registered helper happen where the helper is called, provided the helper cannot succeed
+	// without passing one of them (jointly: an if/else inside the helper may make one call on each branch)
+	for fn, bs := range inHelper {
+		h := ir.HelperOf(f, fn)
+		if h == nil || !mustPassWithin(h.HF, bs) {
+			continue
+		}
+		for b := range bs {
+			blocks[f.OuterBlock(b)] = true
+			break
+		}
+	}
+	return mustPassWithin(f, blocks)
+}
+
+// mustPassWithin: every path of f's own CFG from entry to a success (or maybe) exit passes one of the blocks.
+func mustPassWithin(f *ir.Func, blocks map[*ssa.BasicBlock]bool) bool {
 	entry := f.Fn.Blocks[0]
 	if blocks[entry] {
 		return true
@@ -587,6 +603,31 @@ func (c *Ctx) WhoMayCall(target string, allowed []string, desc string) {
 	allow := map[string]bool{}
 	for _, a := range allowed {
 		allow[a] = true
+	}
+	// a caller that is not in the function inventory was introduced by a later refactor (an extracted helper): it is
+	// transparent, its own callers are judged instead (three levels)
+	for depth := 0; depth < 3; depth++ {
+		var next []CallerSite
+		changed := false
+		for _, cr := range callers {
+			root := cr.Fn
+			for root != nil && root.Parent() != nil {
+				root = root.Parent()
+			}
+			if !allow[cr.Name] && root != nil && ir.IsNewFunc(root) {
+				up := cg.CallersOf(cr.Name)
+				if len(up) > 0 {
+					next = append(next, up...)
+					changed = true
+					continue
+				}
+			}
+			next = append(next, cr)
+		}
+		callers = next
+		if !changed {
+			break
+		}
 	}
 	var names []string
 	for _, cr := range callers {
@@ -1024,10 +1065,40 @@ func (c *Ctx) SendersFrom(pkgRel, callee string, idx int, getters []string, allo
 			}
 			n++
 			root := ir.FuncName(rootFn(fn))
-			found = append(found, root)
-			if !allow[root] {
-				c.add("W", pkgRel, "sendersfrom/"+callee, desc, report.Violated, "funds are sent from a pool-owned account in "+root, c.posOf(call))
-				return
+			// a function that is not in the inventory was extracted later: the send is judged at its callers
+			roots := []string{root}
+			if !allow[root] && ir.IsNewFunc(rootFn(fn)) {
+				cur := []string{root}
+				for depth := 0; depth < 3; depth++ {
+					var up []string
+					for _, nm := range cur {
+						for _, cr := range c.CallGraph().CallersOf(nm) {
+							r := cr.Fn
+							for r != nil && r.Parent() != nil {
+								r = r.Parent()
+							}
+							if !allow[cr.Name] && r != nil && ir.IsNewFunc(r) && depth < 2 {
+								up = append(up, cr.Name)
+							} else {
+								roots = append(roots, cr.Name)
+							}
+						}
+					}
+					if len(up) == 0 {
+						break
+					}
+					cur = up
+				}
+				if len(roots) > 1 {
+					roots = roots[1:]
+				}
+			}
+			for _, root := range roots {
+				found = append(found, root)
+				if !allow[root] {
+					c.add("W", pkgRel, "sendersfrom/"+callee, desc, report.Violated, "funds are sent from a pool-owned account in "+root, c.posOf(call))
+					return
+				}
 			}
 		}
 	}
@@ -1501,7 +1572,7 @@ func (c *Ctx) MapKeys(fnSpec, allowed string, min int, desc string) {
 	}
 	n := 0
 	var seen []string
-	for _, b := range f.Fn.Blocks {
+	for _, b := range subjectBlocks(f) {
 		for _, ins := range b.Instrs {
 			var key ssa.Value
 			var m ssa.Value
@@ -1969,7 +2040,7 @@ func (c *Ctx) MapAccumulate(fnSpec, incPat string, min int, desc string) {
 		return
 	}
 	n := 0
-	for _, b := range f.Fn.Blocks {
+	for _, b := range subjectBlocks(f) {
 		for _, ins := range b.Instrs {
 			lk, ok := ins.(*ssa.Lookup)
 			if !ok || !lk.CommaOk {
@@ -2012,7 +2083,7 @@ func (c *Ctx) MapAccumulate(fnSpec, incPat string, min int, desc string) {
 				return
 			}
 			var path []*ssa.BasicBlock
-			org := ir.NewOrigins(f.Fn)
+			org := pathOrigins(f, b.Parent())
 			org.PhiChoice = func(phi *ssa.Phi) ssa.Value {
 				at := -1
 				for i, pb := range path {
@@ -2088,7 +2159,7 @@ func (c *Ctx) MapAccumulate(fnSpec, incPat string, min int, desc string) {
 	}
 	// converse: an entry of a map that may already hold the key is written only after the presence of that very key
 	// in that very map was tested (a map created in the same block is empty: its first entry needs no test)
-	for _, b := range f.Fn.Blocks {
+	for _, b := range subjectBlocks(f) {
 		for _, ins := range b.Instrs {
 			u, ok := ins.(*ssa.MapUpdate)
 			if !ok {
@@ -2106,7 +2177,7 @@ func (c *Ctx) MapAccumulate(fnSpec, incPat string, min int, desc string) {
 			}
 			M, K := f.Term(u.Map).String(), f.Term(u.Key).String()
 			tested := false
-			for _, lb := range f.Fn.Blocks {
+			for _, lb := range b.Parent().Blocks {
 				for _, li := range lb.Instrs {
 					lk, ok := li.(*ssa.Lookup)
 					if !ok || !lk.CommaOk || !(lb == b || lb.Dominates(b)) {
@@ -2198,7 +2269,23 @@ func (c *Ctx) KeyLayout(fnSpec, want, desc string) {
 				return "", false
 			}
 			var sb strings.Builder
+			// the calls of the subject in order, a call to a registered (new, single-block) helper replaced by the
+			// helper's own calls — their argument terms carry the call site's substitution
+			var seq []ssa.CallInstruction
 			for _, call := range f.Calls() {
+				var hc *ir.HelperCtx
+				for _, h := range ir.HelpersOf(f) {
+					if h.Outer == call {
+						hc = h
+					}
+				}
+				if hc != nil && len(hc.HF.Fn.Blocks) == 1 {
+					seq = append(seq, hc.HF.Calls()...)
+					continue
+				}
+				seq = append(seq, call)
+			}
+			for _, call := range seq {
 				args := f.CallArgs(call)
 				if len(args) == 0 || args[0].String() != t.Args[0].String() {
 					continue
@@ -2251,4 +2338,25 @@ func (c *Ctx) KeyLayout(fnSpec, want, desc string) {
 		return
 	}
 	c.add("Y", fnSpec, role, desc, report.OK, want, c.fnPos(f))
+}
+
+// subjectBlocks: the blocks of f followed by the blocks of its registered (virtually inlined) helpers.
+func subjectBlocks(f *ir.Func) []*ssa.BasicBlock {
+	blocks := append([]*ssa.BasicBlock{}, f.Fn.Blocks...)
+	for _, h := range ir.HelpersOf(f) {
+		blocks = append(blocks, h.HF.Fn.Blocks...)
+	}
+	return blocks
+}
+
+// pathOrigins: a private Origins for the function that contains b (the subject or one of its helpers, keeping the
+// helper's parameter substitution), for path-resolved terms.
+func pathOrigins(f *ir.Func, fn *ssa.Function) *ir.Origins {
+	org := ir.NewOrigins(fn)
+	if fn != f.Fn {
+		if h := ir.HelperOf(f, fn); h != nil && h.HF.Org != nil {
+			org.ParamSubst = h.HF.Org.ParamSubst
+		}
+	}
+	return org
 }
